@@ -137,7 +137,7 @@ CHECKS['C18'] = {
     'kani': [],
     'technique': 'contract-based deductive verification (Verus) of the link-format writer instantiated at a sink that can fail at any write call; sticky-error invariant plus a prefix relation on the text the sink holds',
     'level_text': 'Unbounded proof over all documents, all method-call sequences and all failure points (each sink call may fail, once or persistently, even after accepting part of its text): every writer method preserves the invariant "no call was issued after the first failure, and a failure is remembered in the error slot", both finish() methods return Err iff the slot is set (hence whenever a write failed), and each method satisfies step(): the sink text grows by a prefix of the method\'s fault-free output, by all of it when nothing failed; lemma_step_compose lifts this to whole documents.',
-    'level_note': 'Trusted: Verus/Z3/vstd; R14 the type parameter T: fmt::Write is instantiated at the ghost-logged Sink; R15 write!(w, "{}", x) issues sink writes spelling Display(x) and stops at the first failure (std formatting); R13 `mut self` desugaring; R16 debug_assert dropped; R17 `value.find(|c| PRED).is_some()` read as str_any_char(value, closure) with the closure's predicate translated into the spec predicate attr_quotes (char class methods through the wrappers of spec/charclass.rs); Result::and specified.',
+    'level_note': 'Trusted: Verus/Z3/vstd; R14 the type parameter T: fmt::Write is instantiated at the ghost-logged Sink; R15 write!(w, "{}", x) issues sink writes spelling Display(x) and stops at the first failure (std formatting); R13 `mut self` desugaring; R16 debug_assert dropped; R17 `value.find(|c| PRED).is_some()` read as str_any_char(value, closure) with the predicate of the closure translated into the spec predicate attr_quotes (char class methods through the wrappers of spec/charclass.rs); Result::and specified.',
     'trusted': [T_VERUS, 'R13-R17 (see DESIGN.md 2.2)', 'char class wrappers of spec/charclass.rs (is_ascii*, is_whitespace, is_alphanumeric) and str_any_char (== str::find(closure).is_some())', 'the Sink model: write_char/write_str/write_display_* may fail nondeterministically; on failure the text grows by a prefix of the argument'],
     'explanation': 'LinkFormatWrite::{new,set_add_newlines,link,finish}, LinkAttributeWrite::{internal_attr_key_eq,attr,attr_u32,attr_u16,attr_quoted,finish}',
 }
